@@ -288,9 +288,10 @@ fn run(c: &SimCase) -> (Vec<(&'static str, u64)>, bool, Result<(), Failure>) {
                 }
             }
             Err(e) => {
-                // a child that cannot be started is a harness problem, not a finding
-                eprintln!("harness: c09 child failed: {}", e);
-                panic!("harness: c09 child failed: {}", e);
+                // a child that cannot be started is a problem of the sandbox, not a finding about bourse:
+                // counted (evidence shows it), never reported as a violation
+                eprintln!("note: c09 child process unavailable: {}", e);
+                classes.push(("child_process_unavailable", 1));
             }
         }
     }
